@@ -203,6 +203,34 @@ def check(ctx):
     tst = [n for n in ast.walk(fsl) if isinstance(n, ast.If) and "j == len(b)" in unparse(n.test)]
     ok = len(tst) == 1 and eqv(tst[0].test, "isinstance(a[i], Integral) or j == len(b)")
     ctx.ob("TAB.fuse-slice.integral", fsl, "fuse_slice recognises index entries with isinstance(a[i], Integral) (numpy integers included)", ok, "" if ok else "np.int64 region entries are not recognised: the store task raises NotImplementedError instead of writing target[region]")
+    # ---------------- round 4b (C29-m7): the token of an array BlockwiseDep covers its constructor arguments
+    lay4 = ctx.model.module("dask/layers.py")
+    n_nd4 = 0
+    for fn4 in [n for n in lay4.tree.body if isinstance(n, ast.FunctionDef) and n.decorator_list]:
+        dec4 = fn4.decorator_list[0]
+        if not (isinstance(dec4, ast.Call) and unparse(dec4.func) == "normalize_token.register" and dec4.args and isinstance(dec4.args[0], ast.Name)):
+            continue
+        cls4 = ctx.model.klass("dask/layers.py", dec4.args[0].id)
+        init4 = None
+        for c4 in cls4.mro:
+            if "__init__" in c4.own_methods:
+                init4 = c4.own_methods["__init__"]
+                break
+        if init4 is None:
+            continue
+        n_nd4 += 1
+        pn4 = fn4.args.args[0].arg
+        params4 = [a.arg for a in init4.args.args[1:]]
+        rets4 = [r for r in ast.walk(fn4) if isinstance(r, ast.Return)]
+        ok = len(rets4) == 1 and isinstance(rets4[0].value, ast.Tuple)
+        missing4 = []
+        if ok:
+            have4 = {unparse(e) for e in rets4[0].value.elts}
+            missing4 = [p for p in params4 if f"{pn4}.{p}" not in have4]
+            ok = not missing4
+        ctx.ob("INJ.blockwise-dep.token", rets4[0] if rets4 else fn4, f"{fn4.name}: the token lists {pn4}.<p> for every constructor argument {params4} of {cls4.name}", ok, "" if ok else f"{missing4} not in the token: two {cls4.name} with different {missing4} get one io-dependency name, rewrite_blockwise merges them with dict.update and the stored blocks are cut at the wrong positions")
+    ctx.count("blockwise_dep_normalizers", n_nd4)
+    ctx.floor("blockwise_dep_normalizers", 3)
 
 
 VARIANTS = [
